@@ -18,6 +18,9 @@ CLAIMED = {
             'machine division at 32/64 bits trusted to obey the language definition; radix 2 only'),
     'C03': ('each comparison operator on scaled_integer (all exponent orders, built-in operand) and elastic_integer (all digit/signedness mixes) is '
             'proved equal to the true relation of the exponent-aligned reps / of the values, for all operand values', '5 C03', 'wide_integer comparisons under C10'),
+    'C04': ('scaled_integer conversions: integer->integer (value preserved / truncated toward zero at the destination resolution) on the tag-level convert operator and the '
+            'converting constructor, integer->float as the correctly rounded value with the identity round trip, float->integer as truncation of the exactly scaled value, for all source values in range', '5 C04',
+            'long double not modelled (x87); 64-bit reps to double and radix 10 not claimed'),
     'C05': ('elastic_integer + - * / %: exact result and result within the digits the library reports, as postconditions of the tag-level, wrapper-level and public '
             'operators; the built-in operator on the result rep is replaced by the contract "no wrap", so a too-narrow rep or digit rule fails a call-site precondition', '5 C05',
             'multiplication/division claimed up to the SAT budget (<= 64 result bits); multi-word storage under C10'),
@@ -29,6 +32,9 @@ CLAIMED = {
             'for all operands except zero divisor / negative shift count, both detection paths, debug and NDEBUG flavours', '5 C07', 'as C06'),
     'C08': ('division under nearest / tie-to-+inf / floor / native rounding: division-free correctly-rounded-quotient postconditions for all (a,b) of 8-bit (quick) and 16/32-bit (thorough) reps, '
             'through the tag-level operator, the wrapper-level operator and rounding_integer operator/', '5 C08', '64-bit reps and mixed signedness not claimed; neg_inf >= 16 bit not claimed'),
+    'C09': ('rounding conversions: finer->coarser scaled_integer under nearest / tie-to-+inf / floor with division-free correctly-rounded postconditions for all source values whose result is representable; '
+            'float/double -> integer under tie-to-+inf and floor through CBMC IEEE-754; the float-adjacent-to-tie defect is a KNOWN-FINDING', '5 C09',
+            'nearest float->integer uses long double (x87): refused; long double sources not claimed'),
     'C12': ('native-tag wrappers: every public operator (and wrapper-level / plain-operator layer) proved equal to the built-in expression on the reps under exactly the precondition '
             '"the built-in expression is defined", for all operand values; promoted result type as compile-time fact', '5 C12', '64x64-bit multiply/divide equalities not claimed'),
     'C13': ('integer to_chars: DFCC frame obligation assigns([first,last)), pointer/bounds obligations, and the result contract (ptr in (first,last] on success, ptr == last && value_too_large on failure, '
@@ -44,8 +50,6 @@ CLAIMED = {
 }
 
 NOT_APPLICABLE = {
-    'C04': 'not yet built in this session (plan: DESIGN.md section 5 C04); long double parts cannot be modelled (CBMC long double is binary128, the code runs x87)',
-    'C09': 'not yet built in this session; nearest_rounding_tag float->integer adds 0.5L in long double (x87), which CBMC cannot model faithfully',
     'C10': 'multi-limb multiply/divide/decimal output are beyond every SAT back end here (probed: 4x16-bit limb multiply vs 64-bit * gave no answer in 20 min); linear operations not yet built',
     'C11': 'composition of C01/C05/C06/C08/C09 contracts through the static_integer tower; not yet built in this session',
     'C14': 'needs a decimal parser as a spec function over a symbolic buffer; integer digits attempted after C13, scaled_integer layout case split not built',
